@@ -45,6 +45,31 @@ def curved_sections(ac):
     return ac
 
 
+def check_guess_spelling(chk, MX):
+    """initial_guess may be 'linear' or 'previous': any other value is rejected, or at least never changes what is returned"""
+    rng = chk.rng
+    for k in range(chk.q(2, 8)):
+        ac = gen.simple_wing_aircraft(N=4, reid=rng.random() < 0.5, sweep=rng.choice([None, 15.0]))
+        sd = {"solver": {"type": "nonlinear"}, "scene": {"atmosphere": {"rho": 0.0023769}}}
+        st1 = {"velocity": 90.0, "alpha": 5.0, "beta": 1.0}
+        st2 = {"velocity": 90.0, "alpha": -4.0 + k, "beta": -2.0}
+        guess = ("Previous", "zero", "PREVIOUS", "last", "")[k % 5]
+        chk.case(dict(kind="guess-spelling", guess=guess, k=k), nontrivial=True)
+        chk.count("kind=guess-spelling")
+        sc = gen.build_scene(MX, sd, [("a", ac, st1, {})])
+        sc.solve_forces()
+        sc.set_aircraft_state(state=st2, aircraft="a")
+        try:
+            got = copy.deepcopy(sc.solve_forces(initial_guess=guess, **api.ALL_FRAMES))
+        except Exception:
+            continue
+        fresh = api.solve(gen.build_scene(MX, sd, [("a", ac, st2, {})]))
+        bad = api.compare(got, fresh, rtol=2e-7, atol=2e-8)
+        if bad:
+            chk.violation("path:unrecognised-initial-guess", dict(kind="path", what="initial_guess=%r is accepted and changes the loads returned" % guess, scene=sd,
+                                                                  aircraft=ac, first_state=st1, state=st2, differences=bad[:6]))
+
+
 def run(chk):
     MX = common.setup_env()
     chk.proofs(extra_trusted=["np.linalg.solve is assumed regular at the iterate (invertible Jacobian); uniqueness of the nonlinear solution and the quadratic "
@@ -55,12 +80,19 @@ def run(chk):
     for it in range(n):
         sd = gen.gen_scene(rng, chk.hist, rho="const", wind=rng.random() < 0.3)
         multi = rng.random() < 0.2
+        # (enumerated) two different aircraft far apart, under-relaxed; below only the first one is moved between the solves, so the second
+        # starts the last solve already converged: the iteration ends when the whole scene has converged, not one aircraft of it
+        far_pair = (it == 1)
+        if far_pair:
+            multi = True
+            sd["solver"]["relaxation"] = 0.5
+            chk.count("forced=far-pair-one-moved")
         acs = []
         for k in range(2 if multi else 1):
             ac = gen.gen_aircraft(rng, chk.hist, max_wings=2, sides=("both", "both", "left", "right"))
             st = gen.gen_state(rng, chk.hist, ang=6.0)
             if multi:
-                st["position"] = [0.0, k * 25.0, 0.0]
+                st["position"] = [0.0, k * (30000.0 if far_pair else 25.0), 0.0]
             acs.append(("ac%d" % k, ac, st, gen.gen_controls(rng, ac)))
         try:
             ref_sc = gen.build_scene(MX, sd, acs)
@@ -83,11 +115,13 @@ def run(chk):
                 sc = gen.build_scene(MX, sd, acs)
                 # arbitrary earlier solves: other states and controls
                 for j in range(rng.randint(1, 3)):
-                    nm = rng.choice([a[0] for a in acs])
-                    sc.set_aircraft_state(state=gen.gen_state(rng, None, ang=8.0), aircraft=nm)
+                    nm = rng.choice([a[0] for a in acs]) if not far_pair else "ac0"
+                    sc.set_aircraft_state(state=dict(gen.gen_state(rng, None, ang=8.0), position=[0.0, 0.0, 0.0]) if far_pair else gen.gen_state(rng, None, ang=8.0), aircraft=nm)
                     sc.set_aircraft_control_state(control_state={"aileron": rng.uniform(-8, 8)}, aircraft=nm)
                     sc.solve_forces(initial_guess=rng.choice(["linear", "previous"]))
                 for nm, ac, st, cs in acs:
+                    if far_pair and nm != "ac0":
+                        continue          # (never moved)
                     sc.set_aircraft_state(state=copy.deepcopy(st), aircraft=nm)
                     sc.set_aircraft_control_state(control_state=copy.deepcopy(cs), aircraft=nm)
                 other = copy.deepcopy(sc.solve_forces(initial_guess="previous", **api.ALL_FRAMES))
@@ -211,6 +245,7 @@ def run(chk):
         bad = api.compare(ref, other, rtol=tol, atol=tol * 0.1)
         if bad:
             chk.violation("path:%s" % kind, dict(kind="solver-path", what=what, scene=sd, aircraft=acs, differences=bad[:8]))
+    check_guess_spelling(chk, MX)
     return chk.finish(rule="generated scenes solved with the default path vs relaxation in {0.3..0.85}, vs initial_guess='previous' after 1-3 unrelated "
                            "earlier solves, vs scipy_fsolve; linear solver: A gamma = b on the recorded system and linear/nonlinear gap bounded by C*angle^2 over "
                            "angle scales 1 .. 1/16 (geometry fixed with default options; all angles shrinking with generated options)")
